@@ -451,14 +451,15 @@ def _corr_newick_chars(ctx, out, rng, small):
     reqs = []
     for x in texts:
         nums = {}
-        real = _real_char_tokens(x)
-        if not isinstance(real, dict):
-            for tk_ in real:
-                if isinstance(tk_, list):
-                    try:
-                        nums[tk_[0]] = U.frac_json(["", Fraction(float(tk_[0])), []])[1]
-                    except (ValueError, OverflowError):
-                        pass
+        # every chunk float() accepts (the reader `rd` of the model); taken from the raw pieces so that it
+        # also covers texts whose tail fails to tokenise (parse_string reads the generator lazily)
+        for piece in re.split(LEX_PATTERN, x):
+            cand = piece.strip().replace("_", " ")
+            for c2 in {piece, piece.strip(), cand}:
+                try:
+                    nums[c2] = U.frac_json(["", Fraction(float(c2)), []])[1]
+                except (ValueError, OverflowError):
+                    pass
         reqs.append(("parsestr", dict(text=x, nums=[[k, v] for k, v in nums.items()])))
     for x, rep in zip(texts, ctx.driver.batch(reqs)):
         out["evaluations"] += 1
@@ -467,8 +468,11 @@ def _corr_newick_chars(ctx, out, rng, small):
             if rep != want:
                 bump(out, "newick_chars", "parsestr-guard-skipped")
             continue
+        if "[" in x or "]" in x:
+            bump(out, "newick_chars", "parsestr-comment-brackets-skipped")  # [...] comments: out of scope
+            continue
         rt = _real_char_tokens(x)
-        if not isinstance(rt, dict) and [""] in rt:
+        if (not isinstance(rt, dict) and [""] in rt) or (isinstance(rt, dict) and ("''" in x or '""' in x)):
             # an empty quoted label is a *loaded* name that TreeBuilder replaces by edge.N (outside the
             # stated domain: names are non-empty)
             bump(out, "newick_chars", "parsestr-empty-label-skipped")
@@ -637,6 +641,8 @@ def _classify(t_nested, op, bad_pairs=None):
         names = [n[0] for _, n in U.n_internal_paths(t_nested)]
         if any(nm.startswith("'") for nm in names):
             return "leading-quote-name"
+        if any(nm in ("(", ")", ",", ":", ";", "[") for nm in names):
+            return "punct-name"
         if any(ch in nm for nm in names for ch in "[]'\"(),:;"):
             return "metachar-name"
         return "plain-names"
@@ -780,6 +786,11 @@ def spec_check(ctx, budget):
     for _ in range(350 * budget):
         t, meta = _gen_tree(rng, positive=True)
         cases.append((t, None))
+    # names that consist of a single newick punctuation character (printable names are in the property's domain)
+    for ch in "(),:;[]"[: (7 if budget >= 1 else 0)]:
+        t = ["", None, [[ch, Fraction(1), []], ["cc", Fraction(2), []], ["dd", Fraction(3), [["ee", Fraction(1), []], ["ff", Fraction(5, 2), []]]]]]
+        cases.append((t, [["newick"]]))
+        cases.append((t, [["json"]]))
     for t, ops in cases:
         tree = U.build_real(t)
         nested = U.real_nested(tree)
